@@ -17,7 +17,7 @@ func genPlumb(sh *Shape) {
 	c := sh.Cases[0].C
 	kp, kr := c.K2[0], c.K2[1]
 	pt, rtys := typeList(kp, kinds), typeList(kr, kinds)
-	names := paramNames(c.Naming)
+	names := paramNamesFor(c.Naming, c.Kind == "uncurry")
 	n := c.N
 	var b strings.Builder
 	b.WriteString(header(sh.Pkg))
